@@ -12,7 +12,8 @@ if ! cmake --build $WT/_build -j8 > $S/build.log 2>&1; then
 fi
 ctest --test-dir $WT/_build -j8 --timeout 900 > $S/ctest.log 2>&1
 CT=$(grep -c "100% tests passed" $S/ctest.log)
-bash $S/demo.sh /tmp/wt/baseline/uncrustify > $S/demo_base.log 2>&1; DB=$?
+BASE=/tmp/wt/baseline/uncrustify; [ -x $WT/seed_out/baseline_uncrustify ] && BASE=$WT/seed_out/baseline_uncrustify
+bash $S/demo.sh $BASE > $S/demo_base.log 2>&1; DB=$?
 bash $S/demo.sh $WT/_build/uncrustify > $S/demo_mod.log 2>&1; DM=$?
 git checkout -q -- src
 echo "{\"applies\": true, \"builds\": true, \"ctest_all_pass\": $([ $CT = 1 ] && echo true || echo false), \"demo_baseline_rc\": $DB, \"demo_modified_rc\": $DM, \"ctest_summary\": \"$(grep 'tests passed' $S/ctest.log | head -1)\"}" > $S/confirm.json
